@@ -39,9 +39,16 @@ struct edn_arena {
     arena_block_t* first;
     size_t next_block_size;
     size_t total_allocated;
+    size_t failed_requests; /* number of requests this arena could not meet */
 };
 
 typedef struct edn_arena edn_arena_t;
+
+/* Requests refused so far; lets a caller notice that code it called (e.g. a comparison
+ * that decodes strings lazily) ran out of memory. */
+static inline size_t edn_arena_failed_requests(const edn_arena_t* arena) {
+    return arena ? arena->failed_requests : 0;
+}
 
 /**
  * Line terminator detection mode.
